@@ -47,6 +47,13 @@ pub struct Case {
     pub flush: bool,
     pub queries: Vec<TQ>,
     pub per: Vec<String>,
+    /// declared type of the time field `t`: "datetime" | "timestamp" | "date", optionally "<x> | null"
+    #[serde(default = "default_field_kind")]
+    pub field_kind: String,
+}
+
+fn default_field_kind() -> String {
+    "datetime".into()
 }
 
 fn floor_div(a: i64, b: i64) -> i64 {
@@ -187,8 +194,9 @@ fn case_strategy(tier: Tier, ex: Excl) -> BoxedStrategy<Case> {
     let zones: Vec<&'static str> = if ex.dst_zones { vec!["UTC", "Asia/Kolkata", "Asia/Tokyo"] } else { vec!["UTC", "Europe/Amsterdam", "America/New_York", "Asia/Kolkata", "America/Havana", "Pacific/Chatham", "Asia/Tokyo"] };
     let centers: Vec<i64> = vec![0, 100_000_000, 1_000_000_000, 1_679_792_400, 1_698_541_200, 1_700_000_000, 1_704_067_200, 1_710_046_800, 4_102_444_800, 9_000_000_000, 99_999_990_000];
     let spans: Vec<i64> = if tier == Tier::Quick { vec![3_600, 86_400, 3 * 86_400, 40 * 86_400, 400 * 86_400] } else { vec![3_600, 86_400, 40 * 86_400, 400 * 86_400, 4_000 * 86_400, 40_000 * 86_400] };
-    (prop::sample::select(zones), prop::sample::select(vec!["Mon", "Sun", "Sat"]), 1usize..=2, 1usize..=4, any::<bool>(), prop::sample::select(centers), prop::sample::select(spans))
-        .prop_flat_map(move |(tz, ws, shards, epz, flush, center, span)| {
+    let kinds = vec!["datetime", "datetime", "timestamp", "date", "datetime | null", "date | null", "timestamp | null"];
+    (prop::sample::select(zones), prop::sample::select(vec!["Mon", "Sun", "Sat"]), 1usize..=2, 1usize..=4, any::<bool>(), prop::sample::select(centers), prop::sample::select(spans), prop::sample::select(kinds))
+        .prop_flat_map(move |(tz, ws, shards, epz, flush, center, span, kind)| {
             let window = (center - span, center + span);
             let cfg = DbConfig { shard_count: shards, event_per_zone: epz, fill_factor: 2, timezone: tz.to_string(), week_start: ws.to_string(), ..DbConfig::default() };
             let sp = move || spell_strategy().prop_map(move |s| if ex.float_secs && s == Spell::FloatSecs { Spell::Secs } else { s });
@@ -215,9 +223,9 @@ fn case_strategy(tier: Tier, ex: Excl) -> BoxedStrategy<Case> {
                     TQ { kind: kind.to_string(), op: op.to_string(), ns, spell }
                 });
             let per = prop::collection::vec(prop::sample::select(vec!["HOUR", "DAY", "WEEK", "MONTH", "YEAR"]), 1..=3).prop_map(|v| v.into_iter().map(|s| s.to_string()).collect::<Vec<_>>());
-            (Just(cfg), prop::collection::vec(ev, 4..=tier.pick(24, 48)), Just(flush), prop::collection::vec(q, 4..=tier.pick(12, 20)), per)
+            (Just(cfg), prop::collection::vec(ev, 4..=tier.pick(24, 48)), Just(flush), prop::collection::vec(q, 4..=tier.pick(12, 20)), per, Just(kind.to_string()))
         })
-        .prop_map(|(cfg, events, flush, queries, per)| Case { cfg, events, flush, queries, per })
+        .prop_map(|(cfg, events, flush, queries, per, field_kind)| Case { cfg, events, flush, queries, per, field_kind })
         .boxed()
 }
 
@@ -252,7 +260,12 @@ fn bucket_start(secs: i64, gran: &str, tz: chrono_tz::Tz, week_start: chrono::We
 }
 
 fn run_case(c: &Case, rep: &mut CaseReport) -> Verdict {
-    let td = TypeDef { name: "ev".into(), fields: vec![FieldDef { name: "t".into(), ty: FT::Datetime, opt: false, alias: "datetime".into() }] };
+    let (alias, opt) = match c.field_kind.strip_suffix(" | null") {
+        Some(a) => (a.to_string(), true),
+        None => (c.field_kind.clone(), false),
+    };
+    let td = TypeDef { name: "ev".into(), fields: vec![FieldDef { name: "t".into(), ty: if alias == "date" { FT::Date } else { FT::Datetime }, opt, alias }] };
+    rep.label(format!("field:{}", c.field_kind));
     let mut w = match World::start("c16", &c.cfg, &[td.clone()], false) {
         Ok(w) => w,
         Err(e) => {
